@@ -8,6 +8,7 @@ package c10
 
 import (
 	"fmt"
+	"math/big"
 	"os"
 	"sort"
 	"strings"
@@ -33,6 +34,8 @@ type flight struct {
 	receiver string // bech32 or garbage
 	srcCh    string
 	received bool
+	to       int  // recipient account index
+	back     bool // the voucher of tok's denomination going home (sent on channel-1 by the recipient)
 }
 
 type ibcDriver struct {
@@ -99,6 +102,43 @@ func newIBCDriver(tier string, rogue bool) *ibcDriver {
 		}
 	}
 	d.toks = append(d.toks, id.voucher)
+	// the recipient already holds vouchers of every pair of this family's alphabet (a first transfer
+	// out was completed), so that the way home is within the search depth
+	for _, tn := range id.names {
+		if tn == "voucher" {
+			continue
+		}
+		t := id.tokByName(tn)
+		if tn == "delayed" {
+			// its coins exist only after a hook-path deposit, which already is known finding D7b: left
+			// to the operations, so that a path says how the module's escrow of this token came about
+			continue
+		}
+		if t.origin == "erc20" && rogue {
+			// coins of a misbehaving token only come into being through the hook path
+			id.call(1, t.addr, "transfer", id.modHex, new(big.Int).Mul(unit, big.NewInt(10)))
+		}
+		amt := id.coinBal(t.denom, w.Addrs[1])
+		if t.origin == "erc20" && !rogue {
+			amt = sdkmath.NewIntFromBigInt(unit).MulRaw(5) // converted by the transfer wrapper on the way out
+		}
+		if cap5 := sdkmath.NewIntFromBigInt(unit).MulRaw(5); amt.GT(cap5) {
+			amt = cap5
+		}
+		if !amt.IsPositive() {
+			continue
+		}
+		pk, err := w.IBCSend(w.Ctx(), world.IBCChannelA, w.Addrs[1], w.Addrs[2].String(), sdk.NewCoin(t.denom, amt), ts)
+		if err != nil {
+			panic("fixture transfer of " + tn + ": " + err.Error())
+		}
+		if err := w.IBCRecv(w.Ctx(), pk, w.Addrs[3]); err != nil {
+			panic(err)
+		}
+		if err := w.IBCAck(w.Ctx(), pk, w.Addrs[3]); err != nil {
+			panic(err)
+		}
+	}
 	id.pend = []*flight{nil}
 	d.atestSupply = w.App.BankKeeper.GetSupply(w.Ctx(), "atest").Amount
 	return id
@@ -131,6 +171,9 @@ func (d *ibcDriver) tokByName(n string) token {
 
 // arrival is the pair under which the packet's coins arrive at the other end ("" pair: unregistered).
 func (d *ibcDriver) arrival(f *flight) (token, string) {
+	if f.back {
+		return f.tok, f.tok.denom // home again under its own name: the pair's own denomination
+	}
 	switch f.tok.name {
 	case "coin":
 		return d.voucher, d.voucher.denom
@@ -228,11 +271,49 @@ func (d *ibcDriver) ops(w *world.World, depth int, path []string) []engine.Op {
 						// ERC20-origin coins are minted for the transfer and then escrowed: supply may grow by the converted part
 						viol(res, t, "send", "notexact", "the channel escrow did not grow by exactly the amount sent", p, map[string]any{"amount": amt.String(), "escrowed": escD.String()})
 					}
-					d.pend[len(p)] = &flight{p: pk, tok: t, amt: amt, sender: S, receiver: receiver, srcCh: srcCh}
+					d.pend[len(p)] = &flight{p: pk, tok: t, amt: amt, sender: S, receiver: receiver, srcCh: srcCh, to: R}
 					res.Nontrivial[fmt.Sprintf("ibc.send|%s|%s|%s", tn, cls, rcv)] = true
 					return "ok"
 				})
 			}
+		}
+	}
+	// the recipient sends the voucher it received back home (channel-1 -> channel-0): it arrives under the
+	// pair's own denomination and the erc20 middleware converts it on arrival
+	for _, tn := range d.names {
+		if tn == "voucher" {
+			continue
+		}
+		t := d.tokByName(tn)
+		for _, cls := range []string{"1", "all"} {
+			t, cls := t, cls
+			add(fmt.Sprintf("ibcSendBack(%s,%s)", tn, cls), func(p []string, res *engine.Result) string {
+				if d.pend[len(p)] != nil {
+					return "skip"
+				}
+				vd := world.VoucherDenom(world.IBCChannelB, t.denom)
+				have := d.coinBal(vd, w.Addrs[R])
+				amt := pick(cls, have)
+				if !have.IsPositive() || !amt.IsPositive() {
+					return "skip"
+				}
+				before, sup := d.snap(), w.App.BankKeeper.GetSupply(w.Ctx(), vd).Amount
+				ts := uint64(w.Header.Time.Add(10 * time.Second).UnixNano())
+				pk, err := w.IBCSend(w.Ctx(), world.IBCChannelB, w.Addrs[R], w.Addrs[S].String(), sdk.NewCoin(vd, amt), ts)
+				res.Evaluations++
+				if err != nil {
+					if after := d.snap(); after != before {
+						viol(res, t, "sendback", "partial", "a failed IBC transfer changed balances", p, nil)
+					}
+					return engine.ErrClass(err)
+				}
+				if got := have.Sub(d.coinBal(vd, w.Addrs[R])); !got.Equal(amt) || !sup.Sub(w.App.BankKeeper.GetSupply(w.Ctx(), vd).Amount).Equal(amt) {
+					viol(res, t, "sendback", "notexact", "a returning voucher was not debited and burned by exactly the amount", p, map[string]any{"amount": amt.String(), "debited": got.String()})
+				}
+				d.pend[len(p)] = &flight{p: pk, tok: t, amt: amt, sender: R, receiver: w.Addrs[S].String(), srcCh: world.IBCChannelB, to: S, back: true}
+				res.Nontrivial[fmt.Sprintf("ibc.sendback|%s|%s", tn, cls)] = true
+				return "ok"
+			})
 		}
 	}
 	add("ibcRecv", func(p []string, res *engine.Result) string {
@@ -244,9 +325,9 @@ func (d *ibcDriver) ops(w *world.World, depth int, path []string) []engine.Op {
 		before := d.snap()
 		var uni sdkmath.Int
 		if at.name != "" {
-			uni = d.unified(at, R)
+			uni = d.unified(at, f.to)
 		} else {
-			uni = d.coinBal(adenom, w.Addrs[R])
+			uni = d.coinBal(adenom, w.Addrs[f.to])
 		}
 		pk := *f.p
 		err := w.IBCRecv(w.Ctx(), &pk, w.Addrs[relayer])
@@ -263,9 +344,9 @@ func (d *ibcDriver) ops(w *world.World, depth int, path []string) []engine.Op {
 		okAck := !isErrAck(pk.Ack)
 		var now sdkmath.Int
 		if at.name != "" {
-			now = d.unified(at, R)
+			now = d.unified(at, f.to)
 		} else {
-			now = d.coinBal(adenom, w.Addrs[R])
+			now = d.coinBal(adenom, w.Addrs[f.to])
 		}
 		if okAck {
 			if got := now.Sub(uni); !got.Equal(f.amt) {
@@ -286,7 +367,17 @@ func (d *ibcDriver) ops(w *world.World, depth int, path []string) []engine.Op {
 			if f == nil || !want(f) {
 				return "skip"
 			}
-			before, uni := d.snap(), d.unified(f.tok, f.sender)
+			senderBal := func() sdkmath.Int {
+				if f.back {
+					vd := world.VoucherDenom(world.IBCChannelB, f.tok.denom)
+					if vd == d.voucher.denom {
+						return d.unified(d.voucher, f.sender) // the voucher is itself a registered pair: refunded as tokens
+					}
+					return d.coinBal(vd, w.Addrs[f.sender])
+				}
+				return d.unified(f.tok, f.sender)
+			}
+			before, uni := d.snap(), senderBal()
 			err := run(f)
 			res.Evaluations++
 			if err != nil {
@@ -299,7 +390,7 @@ func (d *ibcDriver) ops(w *world.World, depth int, path []string) []engine.Op {
 				return engine.ErrClass(err)
 			}
 			d.pend[len(p)] = nil
-			got := d.unified(f.tok, f.sender).Sub(uni)
+			got := senderBal().Sub(uni)
 			if f.received && !isErrAck(f.p.Ack) {
 				if after := d.snap(); after != before {
 					viol(res, f.tok, op, "partial", "a success acknowledgement changed balances", p, map[string]any{"before": before, "after": after})
